@@ -13,6 +13,7 @@ decidable exclusion.
 -/
 import CaddyModel.C20.Lemmas
 import CaddyModel.C20.Witness
+import CaddyModel.C20.FEncProps
 import CaddyModel.Gen.Redacted
 import CaddyModel.Gen.LogSites
 
